@@ -12,8 +12,8 @@ def kv (toks : List String) (key : String) : String :=
   | some t => (t.drop (key.length + 1)).toString
   | none => ""
 
-/-- fix = sum of: 1 patch of dependenciesCompleted, 2 patch of markShadowedUnits, 4 graph stage index in the
-tier2 request; 0 = the code as it is -/
+/-- fix = sum of: 1 fix of dependenciesCompleted (d60dce44), 2 fix of markShadowedUnits (9da4cc23), 4 graph stage index in the
+tier2 request (7 = the repository at HEAD, 0 = the code before the three fixes) -/
 def parseFix (s : String) : Patch := let n := nat! s; ⟨n % 2 == 1, (n / 2) % 2 == 1, (n / 4) % 2 == 1⟩
 
 def parseRange (s : String) : Option Range :=
@@ -348,6 +348,49 @@ def stepDiagnostics (st : State) (idx : Nat) (st' : State) : List String :=
     (if ((flatCmds st.bag).filter fun c => match c with | .merge u' => u' == u | _ => false).length > 1 then ["diag/two-merges-of-one-unit-in-flight"] else [])
   | _ => []
 
+/-- candidate invariants for the progress proof, checked on every explored state (diagnostics, v=1) -/
+def liveInvariants (st : State) : List String :=
+  if st.ended.isSome then [] else
+  let F := flatCmds st.bag
+  let s := st.stages
+  let nSt := s.nStages
+  let segs := List.range' s.offset s.states.length
+  let cells := segs.flatMap fun seg => (List.range nSt).map fun k => (seg, k)
+  let hasJob := fun (seg k : Nat) => F.any fun c => match c with | .job u _ _ => u.seg == seg && u.stage == k | _ => false
+  let hasMerge := fun (seg k : Nat) => F.any fun c => match c with | .merge u => u.seg == seg && u.stage == k | _ => false
+  let c1 := if cells.all (fun p => s.getState p.1 p.2 != .scheduled || hasJob p.1 p.2) then [] else ["inv/C1-scheduled-without-job"]
+  let c2 := if cells.all (fun p => s.getState p.1 p.2 != .merging || hasMerge p.1 p.2) then [] else ["inv/C2-merging-without-merge"]
+  let c3 := if (List.range st.pool.workers.length).all (fun w => st.pool.workers.getD w .free != .working ||
+      F.any fun c => match c with | .job _ _ w' => w' == w | _ => false) then [] else ["inv/C3-working-without-job"]
+  let z := if cells.all (fun p => s.getState p.1 p.2 != .shadowed ||
+      (p.2 + 1 < nSt && (let nx := s.getState p.1 (p.2 + 1); nx == .pending || nx == .scheduled || nx == .shadowed))) then []
+    else ["inv/Z-shadow-chain-broken"]
+  let m := if st.storesDone then [] else
+    if (List.range nSt).all (fun i => match s.cmdTryMerge i with | .ok (_, .merge _) => false | _ => true) then []
+    else ["inv/M-mergeable-stage-at-rest"]
+  let hasN := F.any fun c => match c with | .scheduleNextJob => true | .tick => true | .job _ _ _ => true | _ => false
+  let n := if hasN then [] else
+    match s.nextJob st.fix with
+    | .ok (_, none) => []
+    | _ => ["inv/N-schedulable-without-token"]
+  let nx := if (List.range nSt).all (fun i =>
+      let sg := s.stageAt i
+      sg.kind != .store || (decide (sg.seg.firstIndex ≤ sg.next) &&
+        (List.range' sg.seg.firstIndex (sg.next - sg.seg.firstIndex)).all fun seg => s.getState seg i == .completed || s.getState seg i == .noOp)) then []
+    else ["inv/next-prefix-not-complete"]
+  let w3 := if st.storesDone then [] else
+    if (F.any fun c => match c with | .allStoresCompleted => true | _ => false) || !s.allStoresCompleted then [] else ["inv/W3-all-complete-without-A"]
+  let w2 := if st.outDone && st.storesDone && !(F.any fun c => match c with | .shutdown => true | .quit _ => true | _ => false) then ["inv/W2-both-flags-no-shutdown"] else []
+  let w1 := match st.walker with
+    | none => if st.outDone then [] else ["inv/W1-no-walker-not-done"]
+    | some w => if st.outDone then [] else
+      if w.working then (if F.any (fun c => match c with | .downloadCurrent _ => true | .walkerCompleted => true | _ => false) then [] else ["inv/W1a"])
+      else (if F.any (fun c => match c with | .downloadSegment => true | _ => false) then [] else ["inv/W1b"])
+  let idem := match s.nextJob st.fix with
+    | .ok (s1, none) => (match s1.nextJob st.fix with | .ok (_, none) => [] | _ => ["inv/nextJob-not-idempotent"])
+    | _ => []
+  c1 ++ c2 ++ c3 ++ z ++ m ++ n ++ nx ++ w3 ++ w2 ++ w1 ++ idem
+
 structure XState where
   visited : Std.HashMap String Nat := {}
   edges   : Array (List (Nat × Bool)) := #[]      -- (target, poll edge)
@@ -376,6 +419,7 @@ partial def exploreFrom (budget : Nat) (st0 : State) (clock : Bool) (path0 : Lis
   | none =>
     let id := x.edges.size
     let x := { x with visited := x.visited.insert key id, edges := x.edges.push [], term := x.term.push "" }
+    let x := if x.diag then (liveInvariants st).foldl (fun (x : XState) v => if x.viol.any (·.1 == v) then x else { x with viol := x.viol ++ [(v, path)] }) x else x
     if st.ended.isSome || st.bag.isEmpty then ({ x with term := x.term.set! id (endString st) }, id)
     else if x.edges.size > budget then ({ x with trunc := true }, id)
     else
